@@ -23,8 +23,8 @@ CLAIMS = {
              "at most four children per residue, exactly the calls of the structural Spec over the written forest: per written linkage (xA-B) mark(B, marker pair k) on the parent (k = the child's place among its siblings), "
              "root_atom_id(A) on the child, the label's anomer for a child without one of its own, ring offsets; tied by the call sequence observed inside real conversions. "
              "C01_linking_atom(_through_substituent) over the Model of find_oxygen / __check_root_id, C01_numbering_table over the Model of enumerate_carbon.",
-        note="partial: RDKit's writing of the marked residue is a boundary input (its meaning is assumed to be the token semantics Smi.sem); sanitize_smiles is validated per instance "
-             "(same sem), not proved; enumerate_carbon is modelled (tied by correspondence) and C01_numbering_table proves Model = chemistry-level numbering on the library rows; on modified residues the numbering is compared with the chemistry-level rule per residue, not proved; find_oxygen / __check_root_id / root_atom_id and the tree-level Merger.mark / merge_int are modelled and tied by correspondence, the RDKit edit SetAtomicNum itself is judged by the molzip Spec; floating fragments are outside C01_linkage_plan; "
+        note="partial: RDKit's writing of the marked residue is a boundary input (its meaning is assumed to be the token semantics Smi.sem); sanitize_smiles: its )) rule is proved sound at token level (C02_sanitize_rr_sound), the character-level index arithmetic is validated per instance "
+             "(same sem); enumerate_carbon is modelled (tied by correspondence) and C01_numbering_table proves Model = chemistry-level numbering on the library rows; on modified residues the numbering is compared with the chemistry-level rule per residue, not proved; find_oxygen / __check_root_id / root_atom_id and the tree-level Merger.mark / merge_int are modelled and tied by correspondence, the RDKit edit SetAtomicNum itself is judged by the molzip Spec; floating fragments are outside C01_linkage_plan; "
              "two open known findings (numbering of 1-amino-ketoses and 2,6-anhydro sugars). " + NOTE, ref="6 C01, 14"),
     "C03": dict(
         technique="Lean 4 theorems by induction over the syntax tree (walker = pre-order numbering of the compositional reading; one node per written residue; tree shape) + correspondence",
